@@ -43,7 +43,7 @@ TInput ==
                 /\ \A i \in 1..Len(r.calls) : r.calls[i].outcome \in {"value", "error", "none"}
                 /\ r.openErr # "panic" /\ r.iterErr \notin {"panic", "abort", "timeout"}
                 /\ r.openErr = "" => (r.ended /\ r.iterCount <= Bound(e))
-                /\ (m.openErr = "" /\ m.err = "") =>
+                /\ (e.model /\ m.openErr = "" /\ m.err = "") =>
                       /\ r.openErr = "" /\ r.iterErr = ""
                       /\ Len(r.items) = Len(m.items)
                       /\ \A i \in 1..Len(r.items) : SameRead(m.items[i].shape, r.items[i])
